@@ -2109,7 +2109,10 @@ class TensorDictFuture:
     def result(self):
         """Wait and returns the resulting tensordict."""
         concurrent.futures.wait(self.futures)
-        return self.resulting_td
+        # the writers are done: the result, locked node by node by _memmap_, gets its lock graph
+        from tensordict.base import _lock_graph
+
+        return _lock_graph(self.resulting_td)
 
 
 def _is_json_serializable(item):
